@@ -279,3 +279,7 @@ mod tests {
         }
     }
 }
+
+#[cfg(kani)]
+#[path = "/verif/harness/server/hooks/consumer_group.rs"]
+pub(crate) mod verif_hook;
